@@ -306,6 +306,15 @@ func (s *SymDense) CopySym(a Symmetric) int {
 		if amat.Uplo != blas.Upper {
 			panic(badSymTriangle)
 		}
+		if len(s.mat.Data) != 0 && len(amat.Data) != 0 && offset(s.mat.Data, amat.Data) < 0 {
+			// The receiver may be a view that starts after a in the same
+			// backing data: copy the rows in reverse order so that no row
+			// of a is overwritten before it has been copied.
+			for i := n - 1; i >= 0; i-- {
+				copy(s.mat.Data[i*s.mat.Stride+i:i*s.mat.Stride+n], amat.Data[i*amat.Stride+i:i*amat.Stride+n])
+			}
+			break
+		}
 		for i := 0; i < n; i++ {
 			copy(s.mat.Data[i*s.mat.Stride+i:i*s.mat.Stride+n], amat.Data[i*amat.Stride+i:i*amat.Stride+n])
 		}
